@@ -455,13 +455,15 @@ def fifo_configs(tier):
     # (b) the complete environment: packets up to the payload depth, producer and consumer stall freely
     add(depth=2, maxlen=2, env="full")
     add(depth=2, maxlen=2, buffered=True, env="full")
+    # a param FIFO that can be full while the payload FIFO still has room (param_depth < payload_depth - 1)
+    add(depth=3, maxlen=2, pdepth=1, env="full")
     if tier == "thorough":
         add(depth=3, maxlen=3, credit=3, env="credit")
         add(depth=3, maxlen=2, credit=3, pdepth=1, env="credit")
         add(depth=3, maxlen=2, credit=3, buffered=True, env="credit")
         add(depth=4, maxlen=3, rdy1=1, npar=1, env="rdy1")
         add(depth=3, maxlen=3, env="full")
-        add(depth=3, maxlen=2, pdepth=1, env="full")
+        add(depth=4, maxlen=2, pdepth=1, env="full")
         add(depth=4, maxlen=4, npar=1, env="full")
     # after a recorded finding the remaining clauses are explored further (thorough tier) for the smallest DUT only
     for spec in L:
